@@ -440,7 +440,12 @@ def check_twice(acc, entry):
     src, kw, edit = entry
     s1, e1 = egram.parse(src, **kw)
     s2, e2 = egram.parse(src, **kw)
-    if e1 is not None or e2 is not None:
+    if (e1 is None) != (e2 is None) or type(e1) is not type(e2):
+        acc.violation('parse-twice', {'part': 4, 'src': src, 'twice': True}, egram.exc_repr(e1) if e1 else 'parses',
+                      egram.exc_repr(e2) if e2 else 'parses', size=len(src))
+        return
+    if e1 is not None:
+        acc.ok(hash(('twice', src)), cls='twice')
         return
     if fingerprint(s1) != fingerprint(s2):
         acc.violation('parse-twice', {'part': 4, 'src': src, 'twice': True}, list(fingerprint(s1)[:2]),
@@ -553,6 +558,10 @@ def run_shard(shard):
             check_twice(acc, entry)
         n = gram.Names(seed())
         for src in ('\\%s' % n.x, '{}', '$$', '\\item', ''):
+            check_twice(acc, (src, {}, None))
+        # every string here brings a character the process has never seen: what is remembered at first sight must not
+        # change the second parse
+        for src in strings.fresh_char_strings(3):
             check_twice(acc, (src, {}, None))
     return acc
 
